@@ -429,6 +429,18 @@ func (w *c06World) apply(op c06Op) {
 	}
 }
 
+// finite: no node object the history handed to the overlay is stored below itself.  Every container the overlay makes
+// on its own is fresh and stored once, when made, so a cycle goes through one of the handed-over objects.  Asked before
+// Layers() is called: cloning a cyclic document ends the process (stack overflow), which no recover can catch.
+func (w *c06World) finite() bool {
+	for _, id := range sortedKeys(w.made) {
+		if !dhAcyclic(w.made[id]) {
+			return false
+		}
+	}
+	return true
+}
+
 func (w *c06World) state() (names []string, layers map[string]any) {
 	names = w.ov.LayerNames()
 	layers = map[string]any{}
@@ -586,12 +598,18 @@ func c06Eval(c *Ctx, kind string, raw []byte) {
 			_, before := w.state()
 			var names []string
 			var after map[string]any
+			finite := true
 			out, txt := guard(func() {
 				w.apply(op)
-				names, after = w.state()
+				if finite = w.finite(); finite {
+					names, after = w.state()
+				}
 			})
 			if !c.Direct("no-panic("+op.Op+")", out == "ok", map[string]any{"op": op, "panic": txt}) {
 				return
+			}
+			if !c.Direct("documents-finite(no node stored below itself)", finite, map[string]any{"after": op}) {
+				return // not observed any further
 			}
 			writes++
 			c.Dist("write:" + op.Op)
@@ -1256,8 +1274,9 @@ func c06GenHist(r *rand.Rand, g *DocGen, maxWrites int) c06Hist {
 		}
 		if w.inDomain(op) {
 			out, _ := guard(func() { w.apply(op) })
-			if out != "ok" {
-				// the implementation panicked inside the domain: keep the step, the evaluation reports it
+			if out != "ok" || !w.finite() {
+				// the implementation panicked inside the domain, or stored a node below itself: keep the step, the
+				// evaluation reports it
 				ops = append(ops, op)
 				break
 			}
